@@ -1,5 +1,6 @@
 use crate::core::Cx;
 
+pub mod c06;
 pub mod c08;
 pub mod c13;
 pub mod c14;
@@ -10,6 +11,7 @@ pub mod c20;
 
 pub fn run(id: &str, cx: &mut Cx) -> bool {
     match id {
+        "C06" => c06::run(cx),
         "C08" => c08::run(cx),
         "C13" => c13::run(cx),
         "C14" => c14::run(cx),
